@@ -27,7 +27,7 @@ CFG = dict(
     min_counts={"any": {"conc_releases_completed_during_an_acquire_call": 50,
                         "conc_acquisitions_wrapped_to_start_with_outstanding": 1000,
                         "acquire_wrapped_to_start": 100, "space_before_tail_used": 100,
-                        "up_to_request_far_beyond_ring_incl_SIZE_MAX": 100, "ring_of_4GiB_or_more": 100}},
+                        "up_to_request_far_beyond_ring_incl_SIZE_MAX": 100, "ring_of_4GiB_or_more": 100, "up_to_minimum_above_ring_size_refused": 100}},
 )
 
 META = dict(
